@@ -51,6 +51,9 @@ def run(tier):
         scen.append({"alg": "sha256", "msg": rmsg(n)})
     for n in (rng.sample(b512, 4) if q else b512[:40]):
         scen.append({"alg": "sha512", "msg": rmsg(n)})
+    # RIPEMD-160 (64-byte blocks, 8-byte length): the same boundary residues as SHA-256
+    for n in (rng.sample(b256, 5) + [0, 55, 56, 64] if q else b256):
+        scen.append({"alg": "ripemd160", "msg": rmsg(n)})
     # variable length: every residue class that matters, lengths above one block, non-zero filler
     for M in (128, 256):
         cand = [n for n in range(0, M + 1) if n % 64 in (0, 1, 54, 55, 56, 57, 62, 63) or n in (M, M - 1)]
@@ -89,7 +92,7 @@ def run(tier):
     log(f"[C07] MC_Sponge: {len(sess)} sessions enumerated ({len(special)} with an empty absorb right after a squeeze)")
     # tamper plans
     for s in scen:
-        if s["alg"] in ("sha256", "poseidon", "sha256_varlen", "poseidon_varlen") and rng.random() < (0.25 if q else 0.6):
+        if s["alg"] in ("sha256", "ripemd160", "poseidon", "sha256_varlen", "poseidon_varlen") and rng.random() < (0.25 if q else 0.6):
             s.update({"faults": ["plus1", "zero"] if q else ["plus1", "minus1", "zero", "pow2_16", "random"],
                       "max_index": 12 if q else 80, "spread": True, "offset": rng.randrange(0, 5000)})
     log(f"[C07] {len(scen)} scenarios ({sum(1 for s in scen if 'faults' in s)} with tamper plans)")
